@@ -200,6 +200,11 @@ func runReplay(harness string, inputs map[string]interface{}) (*replayResult, st
 		}
 	}
 	s := string(out)
+	if i := strings.Index(s, "fatal error: "); i >= 0 {
+		// the Go runtime killed the process (out of memory, stack overflow, ...): no result and no error was
+		// ever returned to the caller — reported like a panic
+		return &replayResult{ID: "j", Panic: firstLine(s[i:])}, ""
+	}
 	if len(s) > 600 {
 		s = s[:600]
 	}
